@@ -352,7 +352,14 @@ pub fn run_case(idx: usize, case: &Value, o: &SemOpts) -> (Value, Option<Value>,
                 Ok(v) => v,
                 Err(e) => {
                     fails.push(json!({"h": hi, "s": s, "var": "api", "what": panic_msg(e)}));
-                    per_start.push(json!("panic"));
+                    // an impossible match stands for "the call panicked": the judges see a mismatch
+                    per_start.push(json!([[[-9, -9]]]));
+                    if s == 0 {
+                        bfirst.push(json!([[-9, -9]]));
+                        if o.api {
+                            api.push(json!([]));
+                        }
+                    }
                     continue;
                 }
             };
